@@ -46,6 +46,8 @@ def load_contracts(src):
         _rp.register_repeaters(src)
         _rp.register_array_build(src)
         _rp.register_sum_sizes(src)
+        import contracts.sequences as _sq
+        _sq.register_sequences(src)
         import contracts.alternatives as _al
         _al.register_alternatives(src)
     import contracts.classes as cc
